@@ -253,8 +253,8 @@ func runAuthImpl(op M) M {
 		rp := webauthn.NewRelyingParty(string(unhx(op["origin"].(string))), st)
 		opts := &webauthn.PublicKeyCredentialRequestOptions{Challenge: unhx(op["challenge"].(string)),
 			UserVerification: webauthn.UserVerificationRequirement(unhx(op["uv"].(string)))}
-		for _, id := range hexList(op["allow"]) {
-			opts.AllowCredentials = append(opts.AllowCredentials, webauthn.PublicKeyCredentialDescriptor{Type: "public-key", ID: id})
+		for i, id := range hexList(op["allow"]) {
+			opts.AllowCredentials = append(opts.AllowCredentials, webauthn.PublicKeyCredentialDescriptor{Type: descriptorType(op, i), ID: id})
 		}
 		cred := &webauthn.PublicKeyAssertionCredential{RawID: unhx(op["rawId"].(string)),
 			Response: webauthn.AuthenticatorAssertionResponse{ClientDataJSON: unhx(op["cdj"].(string)), AuthenticatorData: unhx(op["authData"].(string)),
@@ -407,7 +407,26 @@ func init() {
 			c.Compare(stream+".type", op, M{"ok": impl["ok"], "type": impl["type"]}, M{"ok": true, "type": et}, class, true)
 		}
 		if eo, ok := op["_expectOK"].(bool); ok {
-			c.Compare(stream+".truth", op, M{"ok": impl["ok"]}, M{"ok": eo}, class, true)
+			// an attestation object that does not even decode is "not accepted" (a panic or a timeout is neither)
+			got := impl["ok"]
+			if dec, isBool := impl["decoded"].(bool); isBool && !dec {
+				got = false
+			}
+			c.Compare(stream+".truth", op, M{"ok": got}, M{"ok": eo}, class, true)
 		}
 	}
+}
+
+// descriptorType: the type member of the i-th allowCredentials descriptor ("public-key" unless the op says otherwise; the ceremony
+// must neither depend on it nor rewrite the caller's list because of it)
+func descriptorType(op M, i int) webauthn.PublicKeyCredentialType {
+	if ts, ok := op["allowTypes"].([]any); ok && i < len(ts) {
+		if s, ok := ts[i].(string); ok {
+			return webauthn.PublicKeyCredentialType(s)
+		}
+	}
+	if ts, ok := op["allowTypes"].([]string); ok && i < len(ts) {
+		return webauthn.PublicKeyCredentialType(ts[i])
+	}
+	return "public-key"
 }
